@@ -32,6 +32,20 @@ def gen_cases(ctx):
     # make sure every multi-error shape is present several times
     for _ in range(120 if ctx.tier == "quick" else 1500):
         st.append(("multi-error", noise_gen.multi_error(r), "nostd,render"))
+    # std bundled: projects of 1-3 files some of which redefine a name the std preamble imports, and plain valid ones
+    stdnames = ["print", "map", "min", "max", "len", "push", "filter", "fold", "abs", "as_str"]
+    for k in range(60 if ctx.tier == "quick" else 600):
+        nfiles = r.randint(1, 3)
+        files = {}
+        for i in range(1, nfiles):
+            files["/m%d.sy" % i] = "c%d :: %d\n" % (i, i)
+        main = "".join("use m%d\n" % i for i in range(1, nfiles))
+        if r.random() < 0.7:
+            nm = r.choice(stdnames)
+            main += r.choice(["%s :: fn x: int do end\n", "%s :: 3\n", "%s := \"s\"\n"]) % nm
+        main += "start :: fn do\n  x := 1\nend\n"
+        files["/main.sy"] = main
+        st.append(("std-project", files, "std,render"))
     return st
 
 
@@ -75,7 +89,27 @@ def run_all(ctx, cases):
     reps = 5 if ctx.tier == "quick" else 12
     procs = 3 if ctx.tier == "quick" else 6
     inproc = vlib.sharded(lambda cs: vlib.run_lines([vlib.HARNESS_BIN, "--timeout", "20", "repeat", str(reps)], cs, 20), lines)
-    cross = [vlib.harness("compile", lines, timeout_s=20) for _ in range(procs)]
+    cross = []
+    for k in range(procs):
+        # every run in fresh processes AND in a different order, so that a result that depends on what the
+        # process compiled before (state kept between compilations) shows up as a difference
+        order = list(range(len(lines)))
+        if k:
+            vlib.rng(ctx.seed, "c16-order-%d" % k).shuffle(order)
+        res = vlib.harness("compile", [lines[i] for i in order], timeout_s=20)
+        back = [None] * len(lines)
+        for pos, i in enumerate(order):
+            back[i] = res[pos]
+        cross.append(back)
+    # ... and each std-bundled case once more as the FIRST compilation of its own process
+    alone_idx = [i for i, l in enumerate(lines) if l.startswith("std,")][:(150 if ctx.tier == "quick" else 1200)]
+    from concurrent.futures import ThreadPoolExecutor
+    with ThreadPoolExecutor(16) as ex:
+        alone = list(ex.map(lambda i: vlib.run_lines([vlib.HARNESS_BIN, "--timeout", "20", "compile"], [lines[i]], 20)[0], alone_idx))
+    first = [None] * len(lines)
+    for i, x in zip(alone_idx, alone):
+        first[i] = x
+    cross.append([first[i] if first[i] is not None else cross[0][i] for i in range(len(lines))])
     bad = []
     for i, l in enumerate(lines):
         ds = set(inproc[i].split(" ")[1:]) if inproc[i].startswith("D ") else {inproc[i]}
@@ -98,6 +132,7 @@ def tie(ctx):
     for i in bad[:5]:
         mism.append({"class": cases[i][0], "files": cases[i][1], "outputs": sorted(set(c[i][:200] for c in cross))})
     ctx.c16_bad = [cases[i] for i in bad]
+    ctx.c16_outputs = {noise_gen.case_line(cases[i][1], flags=cases[i][2]): sorted(set(c[i][:400] for c in cross)) for i in bad}
     rare = rare_cases(ctx)
     rbad, rres, rreps = run_rare(ctx, rare)
     for i in rbad[:3]:
@@ -112,8 +147,10 @@ def tie(ctx):
             "distinct_nontrivial": distinct,
             "rule": "mutated/spliced/truncated programs from /repo/tests, token soup, programs with 2-5 independent errors "
                     "(bad blob/enum field types, unknown generics, undefined names, duplicate globals, missing imports, bad "
-                    "blob fields, bad case arms), multi-file projects with missing/conflicting/cyclic imports, valid programs; "
-                    "each compiled %d times in one process and in %d fresh processes; plus programs with a repeated blob field / "
+                    "blob fields, bad case arms), multi-file projects with missing/conflicting/cyclic imports, valid programs, "
+                    "std-bundled projects of 1-3 files redefining std names; "
+                    "each compiled %d times in one process and in %d fresh processes that visit the cases in different orders, std-bundled "
+                    "cases also as the first compilation of their own process (state kept between compilations); plus programs with a repeated blob field / "
                     "enum variant (verdict goes through a hash lookup of an equal, not identical key), each compiled %d times "
                     "in one process; non-trivial = more than 20 bytes of source" % (reps, procs, rreps),
             "samples": samples,
@@ -142,7 +179,11 @@ def search(ctx):
             outs |= set(vlib.harness("compile", [line] * 50, timeout_s=20))
             if len(outs) > 1:
                 break
+    observed = getattr(ctx, "c16_outputs", {}).get(line)
     return {"class": cls, "files": files, "flags": flags, "distinct_outputs": sorted(o[:400] for o in outs),
+            "outputs_observed_in_the_run": observed,
+            "note": "" if len(outs) > 1 else "compiled alone the result is stable: it depends on what the same process compiled before "
+                                             "(the run compares fresh processes that visit the cases in different orders)",
             "what": "the same sources compile to different results in different runs",
             "replay_cmd": "write the case line to a file and run `%s repeat 20 FILE`" % vlib.HARNESS_BIN, "case_line": line,
             "failing_inputs_found": len(bad)}
